@@ -670,7 +670,20 @@ type badRange struct {
 	detail string
 }
 
+// ops is the number of map operations of the first history of the range (pre-fill included).
+func (b badRange) ops() int {
+	if b.lo >= pow(b.kd.B(), b.n) {
+		return b.n + b.kd.K()
+	}
+	return b.n
+}
+
+// less orders bad ranges so that the shortest history (in operations applied to the map, pre-fill
+// included) comes first, then the lexicographically first.
 func (b badRange) less(o badRange) bool {
+	if b.ops() != o.ops() {
+		return b.ops() < o.ops()
+	}
 	if b.n != o.n {
 		return b.n < o.n
 	}
